@@ -6,7 +6,8 @@ A resource set is a dict
    "acls":      [{"name": ident, "entries": [{"ip", "subnet" (str, may be ""), "negated", "comment"}]}],
    "backends":  [{"name": free text, "address": str|None, "shield": str|None}],
    "directors": [{"name": free text, "type": 1..3, "backends": [backend names], "retries": int, "quorum": int}],
-   "conditions", "headers", "response_objects", "snippets": user-authored VCL fragments (well-formed)}
+   "conditions", "headers", "response_objects", "snippets": user-authored VCL fragments (well-formed), see header_rules /
+   response_objects / snippets below}
 """
 import json
 import re
@@ -45,6 +46,169 @@ def backend_name(rng):
     if r < 0.4:
         return ident(rng)
     return "".join(rng.choice("abcXYZ019-_. ") for _ in range(rng.randint(1, 10))) + rng.choice(["", "-1", " origin", ".example.com", "-eu-west"])
+
+
+# ---------------------------------------------------------------- header rules, response objects, VCL snippets
+OBJ = {"request": "req", "cache": "beresp", "response": "resp"}
+HEADER_SCOPE = {"request": "recv", "cache": "fetch", "response": "deliver"}
+HEADER_ACTIONS = ["set", "append", "delete", "regex", "regex_repeat"]     # every action of the Terraform schema
+HEADER_TYPES = ["request", "cache", "response"]                           # every type of the Terraform schema
+CONDITIONS = [
+    {"name": "c_req", "statement": 'req.url ~ "^/api"', "type": "REQUEST", "priority": 10},
+    {"name": "c_req2", "statement": '(req.http.Cookie ~ "a=(b|c)" && !req.http.X-Skip) || req.url.ext == "jpg"', "type": "REQUEST", "priority": 10},
+    {"name": "c_req3", "statement": 'req.http.Q == "a%20b" "c" && client.ip ~ my_acl', "type": "REQUEST", "priority": 1},
+    {"name": "c_cache", "statement": "beresp.status == 404", "type": "CACHE", "priority": 10},
+    {"name": "c_cache2", "statement": 'beresp.http.Cache-Control !~ "private" && beresp.ttl > 10s', "type": "CACHE", "priority": 10},
+    {"name": "c_resp", "statement": 'resp.http.X == "1"', "type": "RESPONSE", "priority": 5},
+    {"name": "c_resp2", "statement": '!resp.http.Set-Cookie && resp.status >= 500', "type": "RESPONSE", "priority": 5},
+]
+COND_OF = {"request": ["c_req", "c_req2", "c_req3"], "cache": ["c_cache", "c_cache2"], "response": ["c_resp", "c_resp2"]}
+SOURCES = ['"v"', "req.http.Host", '"a" "b"', 'req.http.A ", " req.http.B', "client.ip", "now", 'regsub(req.url, "^/", "")', '{"long {} "text"}',
+           '"a%20b"', "server.region", 'if(req.http.X, "y", "n")', 'std.tolower(req.http.Host)', '"%u{1F600}"', "req.http.Cookie:sid"]
+REGEXES = ["", "a+", "^x", "(a|b)c*$", "^/([^/]+)/", "\\.(jpg|png)$", "[0-9]{1,3}", " +"]       # no double quote / percent: interpolated verbatim
+SUBSTS = ["", "y", "\\1", "\\1-\\2", "/x/", " "]
+
+
+def header_rules(rng):
+    """header rules of every action x type, with and without ignore_if_set / a condition of the rule's own type"""
+    out = []
+    r = rng.random()
+    if r < 0.35:
+        combos = []
+    elif r < 0.93:
+        combos = [(rng.choice(HEADER_TYPES), rng.choice(HEADER_ACTIONS)) for _ in range(rng.choice([1, 1, 2, 3]))]
+    else:
+        combos = [(t, a) for t in HEADER_TYPES for a in HEADER_ACTIONS]
+    for k, (ty, act) in enumerate(combos):
+        h = {"name": "h%d%s" % (k, ident(rng, 3)), "type": ty, "action": act,
+             "destination": "http." + rng.choice(["X-", "x_", "Fastly-", ""]) + ident(rng, 4) + rng.choice(["", "", ":sub"]),
+             "source": rng.choice(SOURCES), "ignore_if_set": rng.random() < 0.35,
+             "priority": rng.choice([1, 10, 10, 100, rng.randint(1, 1000)]), "regex": rng.choice(REGEXES), "substitution": rng.choice(SUBSTS),
+             "request_condition": "", "cache_condition": "", "response_condition": ""}
+        if rng.random() < 0.45:
+            h[ty + "_condition"] = rng.choice(COND_OF[ty])
+        if rng.random() < 0.1:       # a condition of another type is stored but does not apply
+            other = rng.choice([t for t in HEADER_TYPES if t != ty])
+            h[other + "_condition"] = rng.choice(COND_OF[other])
+        out.append(h)
+    return out
+
+
+def header_expected_vcl(h, conditions):
+    """what the rule means, written out by hand (compared as a parsed tree, so layout does not matter)"""
+    lhs = OBJ[h["type"]] + "." + h["destination"]
+    src = h["source"]
+    act = h["action"]
+    if act == "set":
+        body = "set %s = %s;" % (lhs, src)
+    elif act == "append":
+        body = "if (!%s) { set %s = %s; } else { set %s = %s %s; }" % (lhs, lhs, src, lhs, lhs, src)
+    elif act == "delete":
+        body = "unset %s;" % lhs
+    elif act == "regex":
+        body = 'set %s = regsub(%s, "%s", "%s");' % (lhs, src, h["regex"], h["substitution"])
+    else:
+        body = 'set %s = regsuball(%s, "%s", "%s");' % (lhs, src, h["regex"], h["substitution"])
+    if h["ignore_if_set"]:
+        body = "if (!%s) { %s }" % (lhs, body)
+    c = h.get(h["type"] + "_condition") or ""
+    if c:
+        body = "if (%s) { %s }" % (conditions[c], body)
+    return body
+
+
+HOSTILE_CONTENT = ['"}', '{"', '"EOS0}', '"}"EOS0}', '"EOS0}"EOS1}"}', "}", '"', "%", "%20", "%22}", '";\nerror 500;\n{"', "\n", "\r\n", "{\"x\": \"y\"}",
+                   "<html>\n<body class=\"a\">100%</body>\n</html>", "é日本😀", "a {b} c", 'say "hi"', "*/", "//", "#", "\\", "EOS0"]
+HOSTILE_CTYPE = ["text/html", "text/plain; charset=utf-8", "application/json", 'text/html; charset="utf-8"', '"', "%", "a%20b", "x\ny", "x\r\ny",
+                 '";\nset obj.status = 200;\n#', "é", "{\"}", ""]
+
+
+def response_objects(rng):
+    out = []
+    for k in range(rng.choice([0, 0, 0, 1, 1, 2, 3])):
+        r = rng.random()
+        content = rng.choice(HOSTILE_CONTENT) if r < 0.4 else ("" if r < 0.5 else text(rng, 10, 0.5))
+        if rng.random() < 0.3:
+            content = content + rng.choice(HOSTILE_CONTENT) + rng.choice(["", content])
+        cond = rng.random()
+        out.append({"name": "ro%d%s" % (k, ident(rng, 3)), "status": rng.choice([200, 301, 404, 503, 599]),
+                    "response": rng.choice(["OK", "Not Found", 'Gone "away"}', "100%", ""]),
+                    "content": content,
+                    "content_type": rng.choice(HOSTILE_CTYPE) if rng.random() < 0.6 else text(rng, 6, 0.5),
+                    "request_condition": rng.choice(COND_OF["request"]) if cond < 0.4 else "",
+                    "cache_condition": rng.choice(COND_OF["cache"]) if 0.3 < cond < 0.6 else ""})
+    return out
+
+
+SNIPPET_TYPES = ["init", "recv", "hash", "hit", "miss", "pass", "fetch", "error", "deliver", "log", "none"]
+# names Fastly accepts; several of them are the same word after \W -> _
+SNIPPET_NAMES = ["my-snip", "my_snip", "my snip", "my.snip", "a b", "a_b", "a-b", "A-b", "snip", "Snip", "snip 1", "snip_1", "x", "é-1", "e_1", "recv", "init"]
+
+
+def snippet_content(ty, k, rng):
+    if ty == "init":
+        return rng.choice(['table t_init_%d { "a": "%d", }\n' % (k, k), 'sub f_init_%d { set req.http.A = "%d"; }' % (k, k),
+                           'acl a_init_%d { "10.0.0.%d"; }' % (k, k % 256), "# nothing declared %d\n" % k])
+    if ty == "none":
+        return rng.choice(['set req.http.N%d = "%d";' % (k, k), 'sub f_none_%d { return; }' % k, 'if (req.http.N) { esi; }\n# %d\n' % k])
+    if ty == "log":
+        return 'log "snippet %d";' % k
+    if ty == "hash":
+        return 'set req.hash += "%d";' % k
+    obj = {"fetch": "beresp", "error": "obj", "deliver": "resp"}.get(ty, "req")
+    return rng.choice(['set %s.http.S%d = "%d";' % (obj, k, k), 'if (%s.http.S%d) {\n  unset %s.http.S%d;\n}\n' % (obj, k, obj, k),
+                       "# only a comment %d\n" % k, 'set %s.http.S%d = "a%%20b" "%d";' % (obj, k, k)])
+
+
+def snippets(rng):
+    """VCL snippets of every type; equal priorities; names that collide after sanitising; dynamic snippets whose content
+    comes from a fastly_service_dynamic_snippet_content resource (or never arrives)"""
+    out = []
+    r = rng.random()
+    if r < 0.3:
+        n = 0
+    elif r < 0.9:
+        n = rng.choice([1, 2, 3, 4, 6])
+    else:
+        n = rng.choice([11, 14, 20])          # more than twelve: sort.Slice leaves insertion sort
+    names = []
+    focus = rng.choice(SNIPPET_TYPES) if rng.random() < 0.6 else None      # several snippets of ONE type: ordering matters
+    prios = rng.choice([[100], [1, 10, 100], [10, 10, 20], [5, 5, 5, 7], list(range(1, 30)), [0, 100, 2147483647]])
+    for k in range(n):
+        if n >= 11 and k < 11 and focus is None:
+            ty = SNIPPET_TYPES[k]
+        else:
+            ty = focus if focus and rng.random() < 0.75 else rng.choice(SNIPPET_TYPES)
+        while True:
+            nm = rng.choice(SNIPPET_NAMES) if rng.random() < 0.6 else "s" + ident(rng, 3)
+            if nm not in names:
+                break
+            nm = nm + str(k)
+            if nm not in names:
+                break
+        names.append(nm)
+        sn = {"name": nm, "type": ty, "content": snippet_content(ty, k, rng), "priority": rng.choice(prios), "dynamic": False}
+        d = rng.random()
+        if d < 0.15:
+            sn["dynamic"] = True
+            sn["snippet_id"] = "SNIP%d" % k
+        elif d < 0.2:
+            sn["dynamic"] = True
+            sn["snippet_id"] = "SNIP%d" % k
+            sn["no_content_resource"] = True       # content not (yet) known: falco leaves the snippet out
+        elif d < 0.23:
+            sn["dynamic"] = True
+            sn["snippet_id"] = ""                  # known after apply: cannot be joined, left out
+        out.append(sn)
+    return out
+
+
+def expected_snippets(rs):
+    """the snippets falco is expected to use, in the order of insertion: static ones, then dynamic ones whose content is known;
+    ascending priority, equal priorities in that order"""
+    static = [s for s in rs.get("snippets", []) if not s.get("dynamic")]
+    dyn = [s for s in rs.get("snippets", []) if s.get("dynamic") and s.get("snippet_id") and not s.get("no_content_resource") and s["content"] != ""]
+    return sorted(static + dyn, key=lambda s: s["priority"])
 
 
 def resource_set(rng, small=False):
@@ -93,36 +257,10 @@ def resource_set(rng, small=False):
                                     "backends": [rng.choice(bnames) for _ in range(rng.randint(0, 3))],
                                     "retries": rng.choice([0, 0, 3, 5]), "quorum": rng.choice([0, 50, 75, 100])})
     # user-authored VCL fragments: well-formed ones only (the property's "parses" clause is about falco's part)
-    rs["conditions"] = [{"name": "c_req", "statement": 'req.url ~ "^/api"', "type": "REQUEST", "priority": 10},
-                        {"name": "c_cache", "statement": "beresp.status == 404", "type": "CACHE", "priority": 10},
-                        {"name": "c_resp", "statement": 'resp.http.X == "1"', "type": "RESPONSE", "priority": 5}]
-    rs["headers"] = []
-    for _ in range(rng.choice([0, 0, 1, 2])):
-        ty = rng.choice(["request", "cache", "response"])
-        act = rng.choice(["set", "append", "delete", "regex", "regex_repeat"])
-        h = {"name": "h" + ident(rng, 3), "type": ty, "action": act, "destination": "http.X-" + ident(rng, 4),
-             "source": rng.choice(['"v"', "req.http.Host", '"a" "b"']), "ignore_if_set": rng.random() < 0.3,
-             "priority": rng.randint(1, 100), "regex": rng.choice(["", "a+", "^x"]), "substitution": rng.choice(["", "y", "\\\\1"]),
-             "request_condition": "", "cache_condition": "", "response_condition": ""}
-        if rng.random() < 0.4:
-            h[{"request": "request_condition", "cache": "cache_condition", "response": "response_condition"}[ty]] = \
-                {"request": "c_req", "cache": "c_cache", "response": "c_resp"}[ty]
-        rs["headers"].append(h)
-    rs["response_objects"] = []
-    for _ in range(rng.choice([0, 0, 1])):
-        rs["response_objects"].append({"name": "ro" + ident(rng, 3), "status": rng.choice([200, 404, 503]), "response": rng.choice(["OK", "Not Found"]),
-                                       "content": rng.choice(["", "<html>x</html>", "plain text", "a {b} c", 'say "hi"', text(rng, 10, 0.3)]),
-                                       "content_type": rng.choice(["text/html", "text/plain; charset=utf-8", "application/json"]),
-                                       "request_condition": rng.choice(["", "c_req"]), "cache_condition": ""})
-    rs["snippets"] = []
-    for _ in range(rng.choice([0, 0, 1])):
-        rs["snippets"].append({"name": "s" + ident(rng, 3), "type": rng.choice(["recv", "deliver", "init", "none"]),
-                               "content": rng.choice(['set req.http.S = "1";', "# only a comment\n"]) if True else "", "priority": rng.randint(1, 100)})
-    for s in rs["snippets"]:
-        if s["type"] == "init":
-            s["content"] = 'table t_init { "a": "b", }\n'
-        if s["type"] == "deliver":
-            s["content"] = 'set resp.http.S = "1";'
+    rs["conditions"] = [dict(c) for c in CONDITIONS]
+    rs["headers"] = header_rules(rng)
+    rs["response_objects"] = response_objects(rng)
+    rs["snippets"] = snippets(rng)
     rs["force_ssl"] = rng.random() < 0.2
     return rs
 
@@ -141,13 +279,20 @@ def plan_json(sets, nested=False):
             "condition": rs.get("conditions", []),
             "header": rs.get("headers", []),
             "response_object": rs.get("response_objects", []),
-            "snippet": rs.get("snippets", []),
+            "snippet": [{"name": x["name"], "type": x["type"], "content": x["content"], "priority": x["priority"]}
+                        for x in rs.get("snippets", []) if not x.get("dynamic")],
+            "dynamicsnippet": [{"name": x["name"], "type": x["type"], "priority": x["priority"], "snippet_id": x.get("snippet_id", "")}
+                               for x in rs.get("snippets", []) if x.get("dynamic")],
             "request_setting": [{"force_ssl": True}] if rs.get("force_ssl") else [],
         }
         resources.append({"provider_name": PROVIDER, "type": "fastly_service_vcl", "name": "svc", "values": values})
         for a in rs["acls"]:
             resources.append({"provider_name": PROVIDER, "type": "fastly_service_acl_entries", "index": a["name"],
                               "values": {"service_id": rs["id"], "entry": a["entries"]}})
+        for x in rs.get("snippets", []):
+            if x.get("dynamic") and not x.get("no_content_resource"):
+                resources.append({"provider_name": PROVIDER, "type": "fastly_service_dynamic_snippet_content", "name": x["name"],
+                                  "values": {"service_id": rs["id"], "snippet_id": x.get("snippet_id", ""), "content": x["content"]}})
         for d in rs["dicts"]:
             resources.append({"provider_name": PROVIDER, "type": "fastly_service_dictionary_items", "index": d["name"],
                               "values": {"service_id": rs["id"], "items": d["items"]}})
